@@ -1,5 +1,6 @@
 import copy
 import logging
+import os
 import multiprocessing as mp
 import pickle
 from contextlib import contextmanager
@@ -258,6 +259,12 @@ class Aspire:
         if checkpoint_path is None and defaults:
             checkpoint_path = defaults["path"]
             checkpoint_save_config = defaults["save_config"]
+        elif defaults and not self._same_file(
+            checkpoint_path, defaults["path"]
+        ):
+            # The saved_* bookkeeping of the active context is about its own
+            # file, not about another file named explicitly
+            defaults = None
         saved_config = (
             defaults.get("saved_config", False) if defaults else False
         )
@@ -290,6 +297,13 @@ class Aspire:
                     if defaults:
                         defaults["saved_flow"] = self._flow_version
         return history
+
+    @staticmethod
+    def _same_file(path_a, path_b) -> bool:
+        """Whether two checkpoint paths name the same file."""
+        return os.path.abspath(os.fspath(path_a)) == os.path.abspath(
+            os.fspath(path_b)
+        )
 
     def get_sampler_class(self, sampler_type: str) -> Callable:
         """Get the sampler class based on the sampler type.
@@ -502,6 +516,12 @@ class Aspire:
             checkpoint_path = defaults["path"]
             checkpoint_every = defaults["every"]
             checkpoint_save_config = defaults["save_config"]
+        elif defaults and not self._same_file(
+            checkpoint_path, defaults["path"]
+        ):
+            # The saved_* bookkeeping of the active context is about its own
+            # file, not about another file named explicitly
+            defaults = None
         flow_version = getattr(self, "_flow_version", 0)
         # saved_flow holds the version of the flow that was written (False if none)
         saved_flow = (
